@@ -234,7 +234,44 @@ def impl_parse(s, fn):
     return ("ok", t)
 
 
+_CANON_TEMPLATES = None
+
+
+def canon_error(kind, msg):
+    """the error message, re-spelled in the wording the model uses when it still carries the same DATA (which
+    error, the offending text, the position): a maintainer may reword a message without touching any property
+    (they speak of the error class and of where it is raised, never of wording).  Exactly the current wording is
+    left as it is; a message whose data cannot be recovered is compared by class only (returns None)."""
+    import re as _re
+    if kind == "illegal":
+        if msg.startswith("Illegal character '") and " at position " in msg:
+            return msg
+        m = _re.search(r"'(.*)'.*?(\d+)\D*$", msg, _re.S)
+        return "Illegal character '%s' at position %s" % (m.group(1), m.group(2)) if m else None
+    if kind == "syntax":
+        if msg.startswith("Syntax error in input : "):
+            return msg
+        low = msg.lower()
+        if "end" in low and not _re.search(r"\d", msg):
+            return ("Syntax error in input : unexpected end of expression (maybe due to unmatched parenthesis) "
+                    "at the end!")
+        m = _re.search(r"'(.*)'.*?(\d+)\D*$", msg, _re.S)
+        if not m:
+            return None
+        if "number" in low:
+            return "Syntax error in input : invalid number '%s' at position %s!" % (m.group(1), m.group(2))
+        if "unexpected" in low or "syntax" in low:
+            return "Syntax error in input : unexpected  '%s' at position %s!" % (m.group(1), m.group(2))
+        return None
+    return msg
+
+
 def expected_term(kind, val):
+    if kind in ("syntax", "illegal"):
+        c = canon_error(kind, val)
+        if c is None:
+            return "PExpSyntaxAny" if kind == "syntax" else "PExpIllegalAny"
+        val = c
     if kind == "ok":
         if val is None:
             return "PExpNone"
@@ -247,12 +284,15 @@ def expected_term(kind, val):
 
 
 PARSE_DEFS = """
-Inductive pexp := PExpOk (t : item) | PExpSyntax (m : str) | PExpIllegal (m : str) | PExpOther | PExpNone.
+Inductive pexp := PExpOk (t : item) | PExpSyntax (m : str) | PExpIllegal (m : str) | PExpOther | PExpNone
+                  | PExpSyntaxAny | PExpIllegalAny.
 Definition chk (c : str * pexp) : bool :=
   match parse (fst c), snd c with
   | Some (Ok t), PExpOk t' => item_beq t t'
   | Some (Err (ESyntax m)), PExpSyntax m' => str_eqb m m'
   | Some (Err (EIllegal m)), PExpIllegal m' => str_eqb m m'
+  | Some (Err (ESyntax _)), PExpSyntaxAny => true
+  | Some (Err (EIllegal _)), PExpIllegalAny => true
   | _, _ => false
   end.
 """
